@@ -275,7 +275,7 @@ func c09Run(rep *Report, workdir string, class string, files map[string]string, 
 	}
 	writeTree(dir, cur)
 	os.MkdirAll(filepath.Join(dir, "src/gen"), 0755) // an EMPTY directory that a glob-style import lists
-	for k, v := range cur { // "<path>.symlink" entries stand for symbolic links
+	for k, v := range cur {                          // "<path>.symlink" entries stand for symbolic links
 		if strings.HasSuffix(k, ".symlink") {
 			os.Remove(filepath.Join(dir, k))
 			os.Symlink(v, filepath.Join(dir, strings.TrimSuffix(k, ".symlink")))
